@@ -53,7 +53,7 @@ def coq_stage(prop, tier):
     uses = EXTRA_IMPORTS.get(prop, "").split()
     rc0, out0 = sh("python3 tools/py2coq.py --no-sd 2>&1", 120, VERIF)
     rc0s, out0s = sh("python3 tools/py2coq_sd.py 2>&1", 120, VERIF)
-    rc0c, out0c = sh("python3 tools/py2coq_core.py 2>&1; python3 tools/py2coq_perc.py 2>&1; python3 tools/py2coq_blocks.py 2>&1; python3 tools/py2coq_getters.py 2>&1; python3 tools/py2coq_succ.py 2>&1; python3 tools/py2coq_names.py 2>&1; python3 tools/py2coq_clingo.py 2>&1; python3 tools/py2coq_retained.py 2>&1; python3 tools/py2coq_filter.py 2>&1", 120, VERIF)
+    rc0c, out0c = sh("python3 tools/py2coq_core.py 2>&1; python3 tools/py2coq_perc.py 2>&1; python3 tools/py2coq_blocks.py 2>&1; python3 tools/py2coq_getters.py 2>&1; python3 tools/py2coq_succ.py 2>&1; python3 tools/py2coq_names.py 2>&1; python3 tools/py2coq_clingo.py 2>&1; python3 tools/py2coq_retained.py 2>&1; python3 tools/py2coq_filter.py 2>&1; python3 tools/py2coq_collect.py 2>&1", 120, VERIF)
     # a translator refuses per generated file ("FAILED <file>"): that counts for the properties importing the module
     failed_mods = set(re.findall(r"FAILED (\w+)\.v", out0 + out0s + out0c))
     translator_ok = not (failed_mods & set(uses))
